@@ -41,6 +41,8 @@ def parseTail (t : Str) : JobId :=
   else if t = ['-'] then .previous
   else match t with
     | '?' :: r => .substring r
+    -- `str::parse` would accept a leading `+`, but `%+1` is not a job number
+    | '+' :: _ => .prefix_ t
     | _ => match parseNonZeroUsize t with
       | some n => .number n
       | none => .prefix_ t
